@@ -7,9 +7,11 @@ import (
 	"fmt"
 	"mime"
 	"os"
+	"os/exec"
 	"strconv"
 	"strings"
 	"syscall"
+	"time"
 )
 
 // heap ops: the pointer structure mime.go builds (newMIME, Extend, match/cloneHierarchy, lookup,
@@ -212,6 +214,31 @@ func vfExecMore17(f []string, op string) (string, bool) {
 		na, _, _ := mime.ParseMediaType(a)
 		nb, _, _ := mime.ParseMediaType(b)
 		return fmt.Sprintf("%s => %s %s %s", op, vfBit(EqualsAny(a, b)), vfHexOrDash([]byte(na)), vfHexOrDash([]byte(nb))), true
+	case "hugelim": // hugelim lim hex : DetectReader under a limit next to 2^32 (a buffer of that size), in a child process
+		cmd := exec.Command(os.Args[0])
+		cmd.Env = append(os.Environ(), "VERIF_CMD=hugechild", "VERIF_HUGE="+f[1]+":"+f[2])
+		var out bytes.Buffer
+		cmd.Stdout = &out
+		done := make(chan error, 1)
+		if err := cmd.Start(); err != nil {
+			return op + " => NOCHILD", true
+		}
+		go func() { done <- cmd.Wait() }()
+		select {
+		case err := <-done:
+			if err != nil { // the environment could not give the child that much memory
+				return op + " => NOMEM", true
+			}
+		case <-time.After(120 * time.Second):
+			cmd.Process.Kill()
+			return op + " => NOMEM", true
+		}
+		for _, l := range strings.Split(out.String(), "\n") {
+			if strings.HasPrefix(l, "RESULT ") {
+				return op + " => " + l[7:], true
+			}
+		}
+		return op + " => NOMEM", true
 	case "bigslice": // bigslice lim extra hex : Detect on a slice of 2^32+extra bytes (content, then zeros), limit > 0
 		lim64, _ := strconv.ParseUint(f[1], 10, 32)
 		extra, _ := strconv.Atoi(f[2])
@@ -381,6 +408,17 @@ func (g *vfGen) genRealHeap() {
 	}
 }
 
+// vfHugeChild: one DetectReader / Detect pair under a huge limit; a runtime out-of-memory failure ends this process only
+func vfHugeChild() {
+	f := strings.Split(os.Getenv("VERIF_HUGE"), ":")
+	lim, _ := strconv.ParseUint(f[0], 10, 32)
+	data := vfUnhex(f[1])
+	SetLimit(uint32(lim))
+	m, err := DetectReader(bytes.NewReader(data))
+	d := Detect(data)
+	fmt.Printf("RESULT %s %s %s\n", vfErrClass(err), vfRes(m), vfRes(d))
+}
+
 func vfHexOrDash(b []byte) string {
 	if len(b) == 0 {
 		return "-"
@@ -442,6 +480,14 @@ func (g *vfGen) genIsX() {
 // inputs of 4 GiB and more: lengths and sizes that do not fit 32 bits (sparse: nothing large is
 // written or read; limit > 0 throughout)
 func (g *vfGen) genBig() {
+	// limits next to 2^32 on the reader path (the header buffer is sized by the limit, whatever arithmetic is used on
+	// the way); each call allocates a buffer of that size, in a child process
+	for k, lim := range []uint32{4294967295, 4294963201, 4294967294, 4294963200, 2147483648} {
+		if k >= 2 && !g.thorough {
+			break
+		}
+		g.emit(vfOp("hugelim", lim, []byte(`{"a":[1,2,3]}`)))
+	}
 	svg := []byte("<?xml version=\"1.0\"?><!-- " + strings.Repeat("c", 120) + " --><svg xmlns=\"http://www.w3.org/2000/svg\"></svg>")
 	for _, extra := range []int{5, 100, 3071, 0, 70000} {
 		for _, lim := range []int{3072, 16, 65536} {
